@@ -381,7 +381,8 @@ class Scheduler:
             return True
         if self.dead:
             raise DeadlockError(self.dead[0])
-        if self.settle_main and cur.is_main:
+        if self.settle_main and cur.is_main and inject:
+            # (blocking inside Condition.wait's internal re-acquire is not yet uberjob's clean-up)
             self.settle_main = False
             self.log("main_settled")
         cur.pred = pred
